@@ -375,7 +375,47 @@ def rule_r7(ctx):
     c03.rule_r11(ctx, rid="C08.R7")
 
 
-RULES = [rule_r1, rule_r2, rule_r3, rule_r4, rule_r5, rule_r6, rule_r7]
+def rule_r8(ctx, rid="C08.R8"):
+    ctx.r.rule(rid, "a refusal is answered: every exception class start_response raises to refuse a status or header (the classes of its raise statements) travels from the application call to the handler that takes the 500-or-close decision, with no handler on the way that swallows it")
+    from ..excflow import ExcClass, handler_catches, route
+    from . import c09
+    p = ctx.p
+    f, g = _closure(ctx)
+    classes = set()
+    for n in g.nodes:
+        if n.kind == "stmt" and isinstance(n.ast, ast.Raise) and isinstance(n.ast.exc, ast.Call):
+            nm = dotted(n.ast.exc.func)
+            if nm:
+                classes.add(nm)
+        if n.kind == "stmt" and isinstance(n.ast, ast.Assert):
+            classes.add("AssertionError")
+    ctx.r.floor(rid, len(classes), 2, "refusal exception classes raised in start_response")
+    ex = p.func("task.WSGITask.execute")
+    ge = cfg_of(ex)
+    sf, dh = c09._decision_handler(ctx)
+    if dh is None:
+        raise AnalysisError("cannot find the 500-or-close handler in HTTPChannel.service")
+    app = [n for n in ge.nodes if n.kind == "stmt" and isinstance(n.ast, ast.Assign) and isinstance(n.ast.value, ast.Call) and (dotted(n.ast.value.func) or "").endswith(".application")]
+    if not app:
+        raise AnalysisError("anchor vanished: the application call in WSGITask.execute")
+    for exc in sorted(classes):
+        for t in route(p, ex, app[0], exc):
+            if t.kind == "passthrough":
+                continue
+            if t.kind == "escape":
+                ctx.r.violation(rid, "refusal-escapes::%s::%s" % (exc, t.func.qual), "%s raised by start_response to refuse a status/header escapes through %s: no 500 response" % (exc, t.func.qual), t.func.loc(), {"chain": t.chain})
+                continue
+            h = t.hnode.ast
+            if getattr(h, "_orig", h) is getattr(dh, "_orig", dh):
+                ctx.r.ok(rid, "%s (refusal) -> the 500-or-close handler" % exc, t.func.loc(h))
+                continue
+            hname = norm(h.type) if h.type is not None else "<bare>"
+            ctx.r.violation(rid, "refusal-misrouted::%s::%s::%s" % (exc, t.func.qual, hname),
+                            "%s raised by start_response to refuse a status/header is taken by `except %s` in %s before the handler that sends the 500: the client of a refused response gets no 500 (%s)"
+                            % (exc, hname, t.func.qual, getattr(t, "behaviour", "swallow")), t.func.loc(h), {"chain": t.chain})
+
+
+RULES = [rule_r1, rule_r2, rule_r3, rule_r4, rule_r5, rule_r6, rule_r7, rule_r8]
 
 from ..selftest import M, T, V  # noqa: E402
 
